@@ -30,6 +30,8 @@ func writeEvidence(f *commonFlags, tot *Stats, wall float64, reported, known []s
 		"logical_time_events": tot.LogicalTime,
 		"runs_per_hour":       int64(float64(tot.Evaluations) / wall * 3600),
 		"cases_per_hour":      int64(float64(tot.Cases) / wall * 3600),
+		"seeds_per_hour":      int64(float64(tot.Cases) / wall * 3600), // every case is one derived seed = one exactly repeatable execution
+		"simulated_time":      map[string]any{"unit": "logical events (seam visits for C14/C16, yields for C19); the library reads no clock, so there is no simulated wall time", "events": tot.LogicalTime},
 		"seeds": map[string]any{"verif_seed": f.seed, "derivation": "case i uses splitmix64-mixed (VERIF_SEED, i, property tag); worker w of W runs cases i = w mod W",
 			"first_case": 0, "last_case": tot.Cases - 1},
 		"determinism_rechecks": map[string]any{"n": tot.Rechecks, "mismatches": tot.RecheckBad},
@@ -91,6 +93,12 @@ func writeEvidence(f *commonFlags, tot *Stats, wall float64, reported, known []s
 	}
 	if laneB != nil {
 		cov["lane_b"] = laneB
+	}
+	switch f.prop {
+	case "C19":
+		cov["distinct_interleavings"] = map[string]any{"count": tot.Nontrivial, "measure": "distinct (call set, sequence of (task, yield site) context switches taken inside library calls)"}
+	default:
+		cov["distinct_schedules"] = map[string]any{"count": tot.Nontrivial, "measure": "distinct (operation/scenario, perturbed arguments, sequence of non-canonical seam decisions)"}
 	}
 	assume := map[string][]string{
 		"C16": {"map iteration order is taken at the level of the Go specification: every permutation is a legal schedule",
